@@ -105,6 +105,20 @@ def gen_cmd_cases(ctx):
     return out
 
 
+def gen_chain_cases(ctx):
+    """(list op1 x) op2 — two chained operators: the intermediate result goes through
+    push_evaluation_stack (origin recomputation) like in a real expression"""
+    out = []
+    firsts = [("NAdd", b) for b in LISTS_WF + [I(1), I(-1), I(2)]] + [("NSubtract", b) for b in LISTS_WF + [I(1), I(2)]] \
+        + [("NIntersect", b) for b in LISTS_WF]
+    seconds = ["NAll", "NInvert", "NCount", "NListMin", "NListMax", "NValueOfList"]
+    pool = [(a, op1, b, op2) for a in LISTS_WF for (op1, b) in firsts for op2 in seconds]
+    must = [(a, "NSubtract", a, op2) for a in LISTS_WF[3:8] for op2 in ("NAll", "NInvert")]
+    if ctx.quick():
+        pool = ctx.rng.sample(pool, 350)
+    return must + pool
+
+
 F32_OPS2 = ["add", "sub", "mul", "div", "rem", "min", "max", "cmp"]
 F32_OPS1 = ["neg", "floor", "ceil", "toi32"]
 
@@ -144,72 +158,50 @@ def run(ctx):
     facts = gen_tables.run(["native", "cmd", "path"])
     ctx.coverage["generated_tables"] = {k: v for k, v in facts.items() if not isinstance(v, dict)} | {
         "native.int_sem": facts.get("native.int_sem")}
+    import time
+    T0 = time.time()
+    timing = {}
     exe = vlib.build_harness()
+    timing["harness"] = round(time.time() - T0, 1)
     pr = ctx.proof("theories/Props/C07.v")
+    timing["proof"] = round(time.time() - T0, 1)
 
     mism, order_dep, spec_fail = [], [], []
-    n_native = n_cmd = n_f32 = n_spec = 0
+    suspected = {}
+    n_native = n_cmd = n_f32 = n_spec = n_chain = 0
     tables = {}
+    cases = []
     try:
-        okb, logb = ctx.build(["theories/Data/NativeRun.vo"])
+        okb, logb = ctx.build(["theories/Data/NativeRun.vo", "theories/Spec/SpecRun.vo"])
         if not okb:
             raise RuntimeError(logb[-800:])
-        n_f32, badf = f32_tie(ctx)
-        for b in badf:
-            mism.append(dict(stream="f32", **b))
+        from concurrent.futures import ThreadPoolExecutor
+        pool = ThreadPoolExecutor(max_workers=4)
 
-        # ---- operator matrix
+        # ---- implementation runs (fast) and expression lists
         cases = gen_native_cases(ctx)
         n_native = len(cases)
         impl = nc.run_impl([story_json(native_content(op, args)) for op, args in cases], exe, "n")
         fo, tables = nc.oracle_tables(cases)
         pre = fo + f"Definition defs : listdefs := {defs_coq()}.\n"
-        exprs = []
-        for op, args in cases:
-            a = ";".join(op_coq(x) for x in args)
+        exprs, sidx, sexprs = [], [], []
+        for k, (op, args) in enumerate(cases):
+            coq = [op_coq(x) for x in args]
+            a = ";".join(coq)
             if any(order_sensitive(x) for x in args):
                 exprs.append(f"all_orders (fun oo => run_native oo true fo defs {op} [{a}])")
             else:
                 exprs.append(f"run_native ord_id true fo defs {op} [{a}]")
-        model = nc.resolve_sentinels(nc.run_model(exprs, pre, "c07n"))
-        dep_idx = set()
-        for k, ((op, args), i, m) in enumerate(zip(cases, impl, model)):
-            alts = [strip_site(x) for x in m.split("\x03")]
-            if len(alts) > 1:
-                order_dep.append(dict(op=op, args=args, outcomes=alts))
-                dep_idx.add(k)
-            if i not in alts:
-                mism.append(dict(stream="native", op=op, args=args, impl=i, model=m))
-
-        # ---- property-direct: the implementation against the SPECIFICATION (Spec/ExprSpec.v)
-        okb, logb = ctx.build(["theories/Spec/SpecRun.vo"])
-        if not okb:
-            raise RuntimeError(logb[-800:])
-        sidx, sexprs = [], []
-        for k, (op, args) in enumerate(cases):
-            if k in dep_idx:
-                continue
-            kinds_ = [a[0] for a in args]
-            coq = [op_coq(a) for a in args]
-            if all(x in ("i", "f", "b", "s") for x in kinds_):
-                sexprs.append(f"run_spec_scalar fo {op} [{';'.join(coq)}]")
-            elif len(args) == 2 and all(a in LISTS_WF for a in args):
+            # the SPECIFICATION (Spec/ExprSpec.v) on the operands it covers
+            if all(x[0] in ("i", "f", "b", "s") for x in args):
+                sexprs.append(f"run_spec_scalar fo {op} [{a}]")
+            elif len(args) == 2 and all(x in LISTS_WF for x in args):
                 sexprs.append(f"run_spec_list_binary fo {op} {coq[0]} {coq[1]}")
             elif len(args) == 1 and args[0] in LISTS_WF and op in ("NCount", "NValueOfList", "NNot", "NAll", "NInvert"):
                 sexprs.append(f"run_spec_list_unary fo defs {op} {coq[0]}")
             else:
                 continue
             sidx.append(k)
-        spre = pre.replace("From Ink.Data Require Import Native NativeRun Path.", "")
-        smodel = nc.resolve_sentinels(vlib.coq_eval_sharded(
-            nc.PREAMBLE + "From Ink.Spec Require Import SpecRun.\n" + pre, sexprs, shard=300, name="c07s"))
-        n_spec = len(sexprs)
-        for k, sp in zip(sidx, smodel):
-            if sp != impl[k]:
-                op, args = cases[k]
-                spec_fail.append(dict(op=op, args=args, impl=impl[k], spec=sp))
-
-        # ---- list / random commands
         cmds = gen_cmd_cases(ctx)
         n_cmd = len(cmds)
         ccases = [{"id": f"c{k}", "story": story_json(content), "seed": sd, "script": [["CONT"]]}
@@ -219,33 +211,94 @@ def run(ctx):
         draws = nc.oracle([["rng", s] for s in seeds])
         rngt = "Definition rngt : list (Z * Z) := [" + ";".join(f"(({s})%Z, {d}%Z)" for s, d in zip(seeds, draws)) + "].\n"
         cexprs = [f"all_orders (fun oo => {mk('oo')})" for _, _, mk, _ in cmds]
-        cmodel = nc.resolve_sentinels(nc.run_model(cexprs, pre + rngt, "c07c"))
+        chains = gen_chain_cases(ctx)
+        himpl = nc.run_impl([story_json([op_json(a), op_json(b), OPS[op1][0], OPS[op2][0]]) for a, op1, b, op2 in chains],
+                            exe, "h")
+        hexprs = []
+        for a, op1, b, op2 in chains:
+            body = f"run_native2 oo true fo defs {op1} [{op_coq(a)};{op_coq(b)}] {op2} []"
+            if order_sensitive(a) or order_sensitive(b):
+                hexprs.append(f"all_orders (fun oo => {body})")
+            else:
+                hexprs.append(f"(fun oo => {body}) ord_id")
+        timing["impl"] = round(time.time() - T0, 1)
+
+        # ---- the four model batches, concurrently
+        f_f32 = pool.submit(f32_tie, ctx)
+        f_nat = pool.submit(nc.run_model, exprs, pre, "c07n")
+        f_spec = pool.submit(vlib.coq_eval_sharded, nc.PREAMBLE + "From Ink.Spec Require Import SpecRun.\n" + pre,
+                             sexprs, 300, "c07s")
+        f_cmd = pool.submit(nc.run_model, cexprs + hexprs, pre + rngt, "c07c")
+        n_f32, badf = f_f32.result()
+        for bd in badf:
+            mism.append(dict(stream="f32", **bd))
+        model = nc.resolve_sentinels(f_nat.result())
+        smodel = nc.resolve_sentinels(f_spec.result())
+        cmodel = nc.resolve_sentinels(f_cmd.result())
+        cmodel, hmodel = cmodel[:len(cmds)], cmodel[len(cmds):]
+        pool.shutdown()
+        timing["model"] = round(time.time() - T0, 1)
+
+        dep_idx = set()
+        for k, ((op, args), i, m) in enumerate(zip(cases, impl, model)):
+            alts = [strip_site(x) for x in m.split("\x03")]
+            if len(alts) > 1:
+                order_dep.append(dict(op=op, args=args, outcomes=alts))
+                dep_idx.add(k)
+            if i not in alts:
+                mism.append(dict(stream="native", op=op, args=args, impl=i, model=m))
+        # property-direct: implementation vs specification (ties are D18, excluded here)
+        for k, sp in zip(sidx, smodel):
+            if k in dep_idx:
+                continue
+            n_spec += 1
+            if sp != impl[k]:
+                op, args = cases[k]
+                spec_fail.append(dict(op=op, args=args, impl=impl[k], spec=sp))
         for (kind, content, _, sd), i, m in zip(cmds, cimpl, cmodel):
             alts = [strip_site(x) for x in m.split("\x03")]
             if len(alts) > 1:
                 order_dep.append(dict(op=kind, content=content, outcomes=alts))
             if i not in alts:
                 mism.append(dict(stream="cmd", kind=kind, content=content, seed=sd, impl=i, model=m))
+        for (a, op1, b, op2), i, m in zip(chains, himpl, hmodel):
+            alts = [strip_site(x) for x in m.split("\x03")]
+            if len(alts) > 1:
+                order_dep.append(dict(op=f"{op1};{op2}", args=[a, b], outcomes=alts))
+            if i not in alts:
+                mism.append(dict(stream="chain", ops=[op1, op2], args=[a, b], impl=i, model=m))
+            # suspected deviation from the reference runtime (its copy constructor keeps the origin
+            # names of the source list): an emptied difference forgets its origins
+            if op1 == "NSubtract" and a == b and a[1] and op2 == "NAll" and i == 'ok("<>\\u{a}")':
+                suspected.setdefault("emptied-list-forgets-origins", dict(
+                    expression="LIST_ALL(x - x)", x=a, implementation=i,
+                    reference="the declared items of x's origin lists (InkList copy constructor keeps originNames)",
+                    patch="pending/native-3-origins.patch"))
+        n_chain = len(chains)
     except RuntimeError as e:
         mism.append(dict(stream="model-does-not-evaluate", err=str(e)[-600:]))
 
     ctx.coverage.update(dict(
-        evaluations=n_native + n_cmd + n_f32 + n_spec,
-        distinct_nontrivial=n_native + n_cmd,
+        evaluations=n_native + n_cmd + n_f32 + n_spec + n_chain,
+        distinct_nontrivial=n_native + n_cmd + n_chain,
         rule="31 native operators x operand pairs drawn from 7 operand kinds (16 boundary ints incl. i32 MIN/MAX, 17 floats "
              "incl. +-0.0, 0.5, 1e9, 3e9, f32::MAX, denormal, strings incl. empty/numeric/non-ASCII, 16 well-formed lists over "
              "three LIST declarations incl. empty lists with and without origins, cross-list ties and duplicate values, "
              "malformed lists, divert targets, variable pointers, Void, Glue, Tag); unary operators on every operand; "
-             "listInt / range / lrnd / rnd command matrices; f32 primitive operations on bit patterns; "
+             "listInt / range / lrnd / rnd command matrices; two-operator chains (list op list, then a unary list "
+             "operator); f32 primitive operations on bit patterns; "
              "each case = one compiled-JSON story run by the real runtime vs vm_compute of the model",
         samples=[dict(op=cases[0][0], args=cases[0][1]), dict(op=cases[len(cases) // 2][0], args=cases[len(cases) // 2][1])]
         if n_native else [],
-        traces_validated_against_impl=n_native + n_cmd + n_f32,
+        traces_validated_against_impl=n_native + n_cmd + n_f32 + n_chain,
+        suspected_deviations_from_reference=suspected,
         compared_with_specification=n_spec,
         correspondence_mismatches=len(mism),
         order_dependent_cases=len(order_dep),
         order_dependent_sample=order_dep[:3],
-        oracle_table_sizes=tables))
+        oracle_table_sizes=tables, timing_s=timing))
+    for k_, v_ in suspected.items():
+        ctx.notes.append(f"suspected deviation from the reference runtime [{k_}]: {json.dumps(v_)[:260]}")
     if order_dep:
         ctx.notes.append(f"{len(order_dep)} cases whose outcome depends on HashMap iteration order (ties, D18); "
                          "implementation outcome accepted when it is one of the model's outcomes")
